@@ -1850,21 +1850,47 @@ class Interp:
         return None
 
     def st_While(self, st, env):
-        names = self.assigned_names(st.body)
+        """while loops: the same record as a symbolic for loop (carried state, one symbolic pass through the body, exits), with
+        iter = while(<condition over the carried symbols>) and no loop variable; the values after the loop are summaries."""
+        carried_names = [n for n in self.assigned_names(st.body) if env.lookup(n) is not MISSING]
+        pre = {n: env.lookup(n) for n in carried_names}
         benv = env.fork()
-        for n in names:
-            if env.lookup(n) is not MISSING and is_term(env.lookup(n)):
-                benv.vars[n] = sp.Symbol(f"~w:{n}@{st.lineno}")
-        c = self.eval(st.test, benv)
+        carried_syms: Dict[str, sp.Symbol] = {}
+        for n in carried_names:
+            v = pre[n]
+            if is_term(v) or isinstance(v, (bool, str, int, float)) or v is None:
+                sym = sp.Symbol(f"~c:{n}@{st.lineno}")
+                carried_syms[n] = sym
+                benv.vars[n] = sym
+                pre[n] = to_term(v)
+            elif isinstance(v, (list, dict)):
+                benv.vars[n] = copy.copy(v)
+            elif isinstance(v, DatasetVal):
+                benv.vars[n] = v.copy()
+        c = to_term(self.eval(st.test, benv))
         fb = self.exec_block(st.body, benv)
+        ends = list(fb.conts)
+        final_env = fb.env
+        for cc, e in reversed(ends):
+            final_env = e if final_env is None else self.merge_envs(self.relative_cond(cc, benv.pathcond), e, final_env, benv)
         out = Flow(env=env, returns=list(fb.returns))
-        for n in names:
-            cur = env.lookup(n)
-            if cur is MISSING:
-                continue
-            if is_term(cur):
-                fin = fb.env.vars.get(n) if fb.env is not None else None
-                env.vars[n] = op("whilefix", cur, to_term(fin) if fin is not None else NONE_T, to_term(c))
+        if final_env is None and fb.breaks:
+            final_env = fb.breaks[0][1]
+        if final_env is not None:
+            self.loops.append(LoopRecord(
+                func=env.func.qualname if env.func else "", loc=self.loc(env, st), lv=None, iter=op("while", c),
+                carried={n: (pre[n], carried_syms.get(n), final_env.vars.get(n, MISSING)) for n in carried_names},
+                break_conds=[self.relative_cond(cc, benv.pathcond) for cc, _ in fb.breaks],
+                return_conds=[self.relative_cond(cc, benv.pathcond) for cc, _ in fb.returns],
+                has_else=bool(st.orelse), body_env=final_env))
+        for n in carried_names:
+            cur = pre[n]
+            fin = final_env.vars.get(n) if final_env is not None else None
+            if n in carried_syms:
+                env.vars[n] = op("whilefix", to_term(cur), to_term(fin) if fin is not None and fin is not MISSING else NONE_T, c,
+                                 carried_syms[n])
+            elif is_term(cur):
+                env.vars[n] = op("whilefix", cur, to_term(fin) if fin is not None else NONE_T, c)
             else:
                 env.vars[n] = self.note_unknown(f"{n} modified in while loop", st, env)
         return out
